@@ -1,11 +1,17 @@
 """C14 — no stale cache after any sequence of changes."""
+import os
+from tools.py2lean import gen_c14
+
 LEAN_TARGETS = ["EasyFEAVerif.Props.C14"]
 PROPS_MODULES = ["EasyFEAVerif.Props.C14"]
 TRUSTED_EXTRA = [
+    "C14: the dependency table of Model/Sources.lean (which parameter holders each simulation class assembles from) is hand-written; the harness compares it with the _IModel objects reachable from simu.model at run time, and the flag after every assignment with the model",
     "C14: the dependency / notification table of the state machine (Model/Coherence.lean) is hand-written; it is tied to the code by comparing the needUpdate flag after every operation and, at every read, matrices / solution / results with a simulation rebuilt from scratch",
 ]
 ASSUMPTIONS = ["per-group geometric caches and the material's own lazy update (C11) are covered by the fresh-simulation comparison, not by the state-machine theorem"]
 
 
 def generate(repo, lean_dir):
-    return dict(model="hand-written: lean/EasyFEAVerif/Model/Coherence.lean", tie="correspondence")
+    d = gen_c14.write(repo, os.path.join(lean_dir, "EasyFEAVerif", "Gen", "C14"))
+    return dict(model="hand-written: lean/EasyFEAVerif/Model/Coherence.lean, Model/Sources.lean (observer wiring; registrations of every simulation class extracted into Gen/C14/Observers.lean)",
+                tie="translation of the constructors' registrations + statement-level (notification chain) + correspondence", extracted=d["registrations"])
